@@ -20,7 +20,7 @@ package scipipe
 //@   deterministic by-contract pure library function
 //@   ensures def: res == replaceAll(s, old, new)
 
-//@ define validPath(p string) bool = fullMatch(p, "[0-9A-Za-z/._-]+")
+//@ define validPath(p string) bool = matches(p, "^[0-9A-Za-z\\/\\.\\-_]+$")
 
 // ---------------------------------------------------------------------------
 // task.go: path helpers
@@ -652,8 +652,12 @@ package scipipe
 //@ ghost func joinStr(elems seq[string], sep string) string
 //@ ghost func reFindAll(pat string, s string) seq[seq[string]]
 
+//@ ghost func validRegex(expr string) bool
+//@ axiom validRegex.validpath: validRegex("^[0-9A-Za-z\\/\\.\\-_]+$")
+//@ axiom validRegex.placeholder: validRegex("{(o|os|i|is|p|t):([^{}]+)}")
 //@ extern regexp.Compile(expr) (res, err)
 //@   deterministic by-contract pure function of the pattern
+//@   ensures compiles: (err == nil) <==> validRegex(expr)
 //@   ensures lit: err == nil ==> res != nil && regexLit(res) == expr
 //@ extern (*regexp.Regexp).FindAllStringSubmatch(re, s, n) (res)
 //@   deterministic by-contract pure library function
